@@ -109,6 +109,10 @@ def gen_plan(rng):
     plan = {"status": status, "reason": "Verif", "headers": [(b"content-type", b"application/octet-stream"),
                                                            (b"x-host-header", b"v1"), (b"x-host-header", b"v2")],
             "body": body, "framing": framing}
+    if rng.chance(1, 8):
+        # a large response head: long header lines, fewer than the 100 lines hyper's HTTP/1 parser accepts by default
+        k = rng.pick([20, 40, 80])
+        plan["headers"] = plan["headers"] + [(b"x-big-%d" % i, b"v" * 1000) for i in range(k)]
     if framing == "chunked" and body:
         plan["chunks"] = [rng.rand_range(1, len(body)) for _ in range(rng.rand_range(1, 5))]
     if rng.chance(1, 2):
